@@ -80,7 +80,25 @@ def gen_trace_program(rng):
         uid += 1
         k = rng.below(3)
         body_stmt = stmt if callee is None else callee + ";"
-        if callee is None and rng.chance(1, 3):
+        if callee is None and rng.chance(1, 5):
+            # a first exception is propagating through a finally block in which the statement chosen by the generator fails: the report is
+            # that of the SECOND failure (its class, its message, its line); the superseded first throw must leave no trace
+            name = "f%d" % uid
+            emit("fn %s() {" % name)
+            emit("    var pad%d = %d;" % (uid, uid))
+            emit("    try {")
+            emit("        pad%d = pad%d + 1;" % (uid, uid))
+            emit("        throw \"superseded\";")
+            emit("    } finally {")
+            emit("        pad%d = pad%d + 10;" % (uid, uid))
+            ln = emit("        " + body_stmt)
+            emit("        pad%d = pad%d + 100;" % (uid, uid))
+            emit("    }")
+            emit("    return pad%d;" % uid)
+            emit("}")
+            frames.append(("%s()" % name, ln))
+            callee = "%s()" % name
+        elif callee is None and rng.chance(1, 3):
             # the failing statement sits in a try block that has only a finally: the finally runs, the error stays uncaught and the
             # entry of this call must still name the line of the failing statement (not the end of the try statement)
             name = "f%d" % uid
@@ -251,6 +269,43 @@ def correspondence(ctx, model_ok=True):
                                  "expected_first": first, "expected_trace": trace, "observed": c,
                                  "signature": "trace: " + bad.split(",")[0].split(" %")[0][:60] + (" [" + kind + "]" if "kind" in bad else ""),
                                  "failing_input": True})
+    # every built-in failure of the C08 catalogue, UNCAUGHT: the report must carry the class a handler observes (the catalogue's class)
+    # and the trace must name the failing line in the function and the calling line in the script
+    from props import c08
+    prelude = ["#[constructor(new)] class K { fn m(self) { return 1; } }", "fn two(a, b) { return a; }", "fn deep_recursion(n) { return deep_recursion(n + 1); }",
+               "var done_fiber = Fiber.new(|| 1); done_fiber.call();"]
+    ucat = []
+    for src, cls in [("var z = %s;" % e, c) for e, c in c08.BUILTIN_FAILURES] + list(c08.BUILTIN_STATEMENTS):
+        if "deep_recursion" in src:
+            continue                      # 64 trace entries: covered by the generated chains
+        body = prelude + ["fn failing() {", "    var before = 1;", "    " + src, "    return before;", "}", "var pad = 0;", "failing();", "print(\"not reached\");"]
+        ucat.append((src, cls, "\n".join(body) + "\n", len(prelude) + 3, len(prelude) + 7))
+    ulines = [vlib.case_line("u%d" % i, ["M:%s:%s" % (vlib.hx("bad_syntax_module"), vlib.hx("var = ;\n")), "S:" + vlib.hx(u[2])], steps=3000000)
+              for i, u in enumerate(ucat)]
+    ures = vlib.run_real(ctx.runner, ulines)
+    for (src, cls, prog, fl, cl), r in zip(ucat, ures):
+        st = (r.get("steps") or [{}])[-1] if isinstance(r, dict) else {}
+        c = progs.canon_step(st if st else r)
+        msgs = list(c[3]) if len(c) > 3 else []
+        want = ["[module \"main\", line %d] in failing()" % fl, "[module \"main\", line %d] in script" % cl]
+        bad = None
+        if c[0] != "err" or c[1] != cls:
+            bad = "reported as %s %s, a handler observes %s" % (c[0], c[1] if len(c) > 1 else "", cls)
+        elif not msgs or not msgs[0].startswith("Unhandled %s: " % cls):
+            bad = "first message %r does not name the class %s" % (msgs[:1], cls)
+        elif msgs[-2:] != want and "import" not in src:
+            bad = "trace %s, expected %s" % (msgs[-2:], want)
+        elif c[2]:
+            bad = "printed %s after the failure" % (list(c[2]),)
+        if bad:
+            failures.append({"what": "uncaught built-in failure `%s`: %s" % (src, bad), "program": prog, "modules": {"bad_syntax_module": "var = ;\n"},
+                             "expected_kind": cls, "expected_first": None, "expected_trace": want if "import" not in src else [want[-1]],
+                             "observed": c, "signature": "uncaught built-in failure: " + bad.split(",")[0].split(" %")[0][:50], "failing_input": True})
+    if model_ok:
+        sd = specdiff.diff_lines(ctx, ulines, ures, broken, what="uncaught built-in failure",
+                                 payload_of=lambda i: {"program": ucat[i][2], "modules": {"bad_syntax_module": "var = ;\n"}})
+        failures += sd["failures"]
+        spec_steps += sd["compared"]
     # errors from host natives are catchable values of the corresponding class
     host = []
     for k in ["AttributeError", "ImportError", "IndexError", "NameError", "RuntimeError", "TypeError", "ValueError"]:
@@ -279,7 +334,7 @@ def correspondence(ctx, model_ok=True):
             failures.append({"what": "compile error for fault '%s' does not name line %s first (or code ran)" % (name, line), "program": src,
                              "expected_line": list(lines_ok), "observed": c, "signature": "compile-error line: " + name, "failing_input": True})
     cov = {
-        "evaluations": 2 * n_tr + len(host) + len(cat),
+        "evaluations": 2 * n_tr + len(host) + len(cat) + len(ucat), "uncaught_builtin_failures": len(ucat),
         "distinct_nontrivial": len(nontrivial),
         "rule": "one-statement-per-line programs with a chosen failing statement (19 kinds), call chain of depth 0-4 through functions, methods, "
                 "module bodies and fibers; expected class, first message and every trace entry constructed; distinct = distinct program; 2 GC modes; "
